@@ -101,22 +101,17 @@ def extraKeysOf (cfg : Cfg) (initFs : List (FieldDef × Ty)) (kvs : List (V × V
 def fromDict (cls : String) (cfg : Cfg) (fs : List (FieldDef × Ty)) (d : V)
     (fieldsF : List (V × V) → R (List (String × V))) : R V :=
   let initFs := fs.filter (fun ft => ft.1.init)
-  if initFs.isEmpty then
-    -- no constructor parameter is read: the input is not even looked at
-    match defaultsOnly fs with
-    | some vals => .ok (buildInst cls vals)
-    | none => raisePy .typeError
-  else
-    match d with
-    | .map _ kvs =>
-        let extra := extraKeysOf cfg initFs kvs
-        if cfg.forbidExtraKeys && !extra.isEmpty then .error (.extraKeys extra cls)
-        else do
-          let vals ← fieldsF kvs
-          pure (buildInst cls vals)
-    | _ =>
-        -- d.keys() / d.get(...) raise AttributeError → "should be a dict instance"
-        .error (.notADict cls)
+  -- since fix F42 a class without constructor parameters checks its argument like any other
+  match d with
+  | .map _ kvs =>
+      let extra := extraKeysOf cfg initFs kvs
+      if cfg.forbidExtraKeys && !extra.isEmpty then .error (.extraKeys extra cls)
+      else do
+        let vals ← fieldsF kvs
+        pure (buildInst cls vals)
+  | _ =>
+      -- d.keys() / d.get(...) raise AttributeError → "should be a dict instance"
+      .error (.notADict cls)
 
 /-- build the canonical collection class from the converted elements -/
 def finishColl (o : CollO) (r : List V) : R V :=
